@@ -65,9 +65,18 @@ type vReplica struct {
 
 // newReplica creates a device. If sibling is non-nil the new device belongs to the same account.
 func (w *vWorld) newReplica(name string, sibling *vReplica) *vReplica {
+	return w.newReplicaWindow(name, sibling, 0)
+}
+
+// newReplicaWindow is newReplica with a message-key window of the given size (0 = the default of 100).
+func (w *vWorld) newReplicaWindow(name string, sibling *vReplica, window int) *vReplica {
 	w.n++
 	r := &vReplica{w: w, name: fmt.Sprintf("%s#%d", name, w.n), ssDS: verifkit.NewRecDS(), odbDS: dssync.MutexWrap(datastore.NewMapDatastore())}
-	ss, err := secretstore.NewSecretStore(r.ssDS, nil)
+	var opts *secretstore.NewSecretStoreOptions
+	if window > 0 {
+		opts = &secretstore.NewSecretStoreOptions{PreComputedKeysCount: window}
+	}
+	ss, err := secretstore.NewSecretStore(r.ssDS, opts)
 	if err != nil {
 		w.t.Fatalf("verif: secret store: %v", err)
 	}
